@@ -295,7 +295,65 @@ class _Normalise(ast.NodeTransformer):
     def visit_FunctionDef(self, node):
         self.generic_visit(node)
         self._fold_temps(node)
+        self._quantifier_loops(node)
         return node
+
+    _qn = 0
+
+    def _quantifier_loops(self, fn):
+        """`if [not] all(map(F, IT)):` / `x = any(map(F, IT))` with F a plain name / attribute chain  ->  the short-circuiting loop it abbreviates
+        (`q = True; for i in IT: if not F(i): q = False; break`), so that rules phrased over loops (and the expansion of a new helper F) see it."""
+        def quant(e):
+            neg = False
+            if isinstance(e, ast.UnaryOp) and isinstance(e.op, ast.Not):
+                e, neg = e.operand, True
+            if isinstance(e, ast.Call) and isinstance(e.func, ast.Name) and e.func.id in ("all", "any") and len(e.args) == 1 and not e.keywords:
+                m = e.args[0]
+                if isinstance(m, ast.Call) and isinstance(m.func, ast.Name) and m.func.id == "map" and len(m.args) == 2 and not m.keywords and _is_pure_chain(m.args[0]):
+                    return e.func.id, m.args[0], m.args[1], neg
+            return None
+
+        def build(kind, f, it, at):
+            _Normalise._qn += 1
+            q, i = f"_quant_{_Normalise._qn}", f"_quant_item_{_Normalise._qn}"
+            call = ast.Call(func=f, args=[ast.Name(id=i, ctx=ast.Load())], keywords=[])
+            test = ast.UnaryOp(op=ast.Not(), operand=call) if kind == "all" else call
+            body = [ast.Assign(targets=[ast.Name(id=q, ctx=ast.Store())], value=ast.Constant(value=(kind != "all"))), ast.Break()]
+            loop = ast.For(target=ast.Name(id=i, ctx=ast.Store()), iter=it, body=[ast.If(test=test, body=body, orelse=[])], orelse=[], type_comment=None)
+            init = ast.Assign(targets=[ast.Name(id=q, ctx=ast.Store())], value=ast.Constant(value=(kind == "all")))
+            for st in (init, loop):
+                for x in ast.walk(st):
+                    if not hasattr(x, "lineno"):
+                        ast.copy_location(x, at)
+                ast.fix_missing_locations(st)
+            return q, [init, loop]
+
+        def block(stmts):
+            out = []
+            for st in stmts:
+                if isinstance(st, ast.If) and quant(st.test) is not None:
+                    kind, f, it, neg = quant(st.test)
+                    q, pre = build(kind, f, it, st)
+                    ref = ast.copy_location(ast.Name(id=q, ctx=ast.Load()), st.test)
+                    st.test = ast.copy_location(ast.UnaryOp(op=ast.Not(), operand=ref), st.test) if neg else ref
+                    out.extend(pre)
+                elif isinstance(st, (ast.Assign, ast.Return)) and st.value is not None and quant(st.value) is not None and not (isinstance(st, ast.Assign) and len(st.targets) != 1):
+                    kind, f, it, neg = quant(st.value)
+                    q, pre = build(kind, f, it, st)
+                    ref = ast.copy_location(ast.Name(id=q, ctx=ast.Load()), st.value)
+                    st.value = ast.copy_location(ast.UnaryOp(op=ast.Not(), operand=ref), st.value) if neg else ref
+                    out.extend(pre)
+                out.append(st)
+            return out
+        for n in ast.walk(fn):
+            if isinstance(n, (ast.FunctionDef, ast.AsyncFunctionDef, ast.ClassDef)) and n is not fn:
+                continue
+            for fld in ("body", "orelse", "finalbody"):
+                v = getattr(n, fld, None)
+                if isinstance(v, list) and v and isinstance(v[0], ast.stmt):
+                    setattr(n, fld, block(v))
+            if isinstance(n, ast.ExceptHandler):
+                n.body = block(n.body)
 
     visit_AsyncFunctionDef = visit_FunctionDef
 
